@@ -29,6 +29,7 @@ usize g_ref0;         // its reference count before = number of handles
 bool g_a_keeps;       // model: a may keep using g_blk0 only if it was the sole owner
 bool g_need2;         // the model byte travels through an intermediate position (self-append) ...
 usize g_mid;          // ... at this view index of the final storage
+bool g_mid_abs;       // ... or at this byte offset inside a temporary block
 bool g_exp_sole;      // model: storage a did not have before is private to a (false for copy/assignment, which share)
 
 // representation invariant
@@ -78,7 +79,7 @@ bool post_string(const String* a)
   if(d->len != g_exp_len) return false;
   if(g_exp_mincap && !(d->ref == 1 && d->capacity >= g_exp_mincap)) return false;
   if(g_exp_sole && d != &String::emptyData && d != &a->_data && d != g_blk0 && d->ref != 1) return false; // fresh block: one handle
-  if(g_exp_has && g_k < d->len && NV_OFFSET(d->str) + g_k == g_woff && (!g_need2 || NV_OFFSET(d->str) + g_mid == g_woff2) &&
+  if(g_exp_has && g_k < d->len && NV_OFFSET(d->str) + g_k == g_woff && (!g_need2 || (g_mid_abs ? g_mid : NV_OFFSET(d->str) + g_mid) == g_woff2) &&
      d->str[g_k] != g_exp_byte) return false;
   return post_old_block(a) && post_other_handle();
 }
@@ -161,7 +162,7 @@ static void teardown(String& a, String& b, Pre& p)
 
 #define NV_GHOST() \
   NV_INPUT(usize, k); NV_INPUT(usize, woff); NV_INPUT(usize, woff2); NV_INPUT(char, vbyte); \
-  g_k = k; g_woff = woff; g_woff2 = woff2; g_cmp_k = k; g_exp_has = false; g_exp_mincap = 0; g_exp_sole = true; g_need2 = false; g_mid = 0
+  g_k = k; g_woff = woff; g_woff2 = woff2; g_cmp_k = k; g_exp_has = false; g_exp_mincap = 0; g_exp_sole = true; g_need2 = false; g_mid = 0; g_mid_abs = false
 
 static char pin(const String& s, usize i, char v)
 {
@@ -505,6 +506,107 @@ void h_cstr()
   if(kind == 1) { NV_REACH("cstr.attached"); }
   teardown(a, b, P);
   delete[] P.foreign;
+}
+
+
+// -------------------------------------------------------------- prepend(const char*, len)
+void h_prepend_buf()
+{
+  NV_STRING_STATICS();
+  NV_PRE_INPUTS(P);
+  NV_INPUT(usize, n);
+  NV_GHOST();
+  NV_ASSUME(n <= NV_MAXSZ);
+  String a, b;
+  build(a, b, P);
+  char* src = new char[n + 1];
+  nv_pattern(src, n, 13);
+  usize old = a.data->len;
+  g_exp_len = old + n;
+  NV_ASSUME(g_exp_len <= NV_MAXSZ && k < g_exp_len);
+  g_exp_has = true;
+  if(k < n) g_exp_byte = src[k] = vbyte; else g_exp_byte = pin(a, k - n, vbyte);
+  if(g_b && k < g_b_len0) { g_b_has = true; g_b_byte = g_b->data->str[k]; }
+  // an attached string is first deep-copied into a temporary block (String copy(*this)): its byte
+  // i sits at offset HDR + i of that block before it reaches the final storage
+  if(kind == 1 && k >= n) { g_need2 = true; g_mid_abs = true; g_mid = HDR + (k - n); }
+  NV_PRE(wf_String(&a));
+  a.prepend(src, n);
+  NV_POST("prepend(const char*, len): src ++ old, other handles unaffected", post_string(&a));
+  NV_REACH("prepend_buf.return");
+  teardown(a, b, P);
+  delete[] src; delete[] P.foreign;
+}
+
+// -------------------------------------------------------------- prepend(const String&) incl. self
+void h_prepend_str()
+{
+  NV_STRING_STATICS();
+  NV_PRE_INPUTS(P);
+  NV_INPUT(usize, okind); NV_INPUT(usize, ocap); NV_INPUT(usize, olen); NV_INPUT(bool, alias);
+  NV_GHOST();
+#ifdef NV_ALIAS
+  NV_ASSUME(alias == (NV_ALIAS != 0));
+#endif
+  NV_ASSUME(okind <= 2 && (okind != 0 || olen == 0) && ocap <= NV_MAXSZ && olen <= NV_MAXSZ && (okind != 2 || olen <= ocap));
+  String a, b, o2, dummy;
+  build(a, b, P);
+  Pre Q; Q.kind = okind; Q.cap = ocap; Q.len = olen; Q.share = false; Q.extra = 0; Q.foreign = 0;
+  String::Data* keep_blk0 = g_blk0; usize keep_ref0 = g_ref0; const String* keep_b = g_b; String::Data* kbd = g_b_data0; usize kbl = g_b_len0;
+  if(!alias) build(o2, dummy, Q);
+  g_blk0 = keep_blk0; g_ref0 = keep_ref0; g_b = keep_b; g_b_data0 = kbd; g_b_len0 = kbl; g_b_has = false;
+  g_a_keeps = false; // prepend always moves to new storage (it keeps a temporary copy of itself)
+#if defined(NV_ALIAS) && NV_ALIAS
+  String* op = &a;
+#elif defined(NV_ALIAS)
+  String* op = &o2;
+#else
+  String* op = alias ? &a : &o2;
+#endif
+  String& o = *op;
+  usize old = a.data->len, n = o.data->len;
+  g_exp_len = old + n;
+  NV_ASSUME(g_exp_len <= NV_MAXSZ && k < g_exp_len);
+  g_exp_has = true;
+  if(k < n) g_exp_byte = pin(o, k, vbyte); else g_exp_byte = pin(a, k - n, vbyte);
+  if(g_b && k < g_b_len0) { g_b_has = true; g_b_byte = g_b->data->str[k]; }
+  if(kind == 1 && k >= n) { g_need2 = true; g_mid_abs = true; g_mid = HDR + (k - n); }
+  NV_PRE(wf_String(&a) && wf_String(&o));
+  a.prepend(o);
+  NV_POST("prepend(const String&): other ++ old (also for other == *this)", post_string(&a) && (alias || wf_String(&o)));
+  if(alias && n > 0) { NV_REACH("prepend_str.self"); }
+  if(!alias && n > 0 && old > 0) { NV_REACH("prepend_str.other"); }
+  teardown(a, b, P);
+  delete[] P.foreign; delete[] Q.foreign;
+}
+
+// -------------------------------------------------------------- operator== / operator!=
+bool post_str_eq(const String* a, const String* o, bool r)
+{
+  usize la = a->data->len, lo = o->data->len;
+  if(r) return la == lo && (g_cmp_k >= la || a->data->str[g_cmp_k] == o->data->str[g_cmp_k]);
+  return la != lo || (g_cmp_wit < la && a->data->str[g_cmp_wit] != o->data->str[g_cmp_wit]);
+}
+void h_eq()
+{
+  NV_STRING_STATICS();
+  NV_PRE_INPUTS(P);
+  NV_INPUT(usize, okind); NV_INPUT(usize, ocap); NV_INPUT(usize, olen);
+  NV_GHOST();
+  NV_ASSUME(okind <= 2 && (okind != 0 || olen == 0) && ocap <= NV_MAXSZ && olen <= NV_MAXSZ && (okind != 2 || olen <= ocap));
+  String a, b, o, dummy;
+  build(a, b, P);
+  Pre Q; Q.kind = okind; Q.cap = ocap; Q.len = olen; Q.share = false; Q.extra = 0; Q.foreign = 0;
+  build(o, dummy, Q);
+  NV_PRE(wf_String(&a) && wf_String(&o));
+  bool r = a == o;
+  NV_CHECK(post_str_eq(&a, &o, r), "operator== <=> equal length and equal bytes");
+  bool r2 = a != o; // (a second, independent use of the Memory::compare contract)
+  NV_CHECK(post_str_eq(&a, &o, !r2), "operator!= <=> different length or different bytes");
+  if(r && a.data->len > 0) { NV_REACH("eq.true"); }
+  if(!r && a.data->len == o.data->len) { NV_REACH("eq.false_content"); }
+  teardown(a, b, P); teardown(o, dummy, Q);
+  delete[] P.foreign; delete[] Q.foreign;
 }
 
 } // extern "C"
